@@ -183,6 +183,31 @@ class Interp:
         self.loop_specs = {}            # provided by the contract being verified
         self.call_stack = []
         self.inline_only = set(self.opt.get('inline', ()))
+        # frozen value dataclasses of /repo that live inside symbolic containers as PyV terms
+        state.value_classes.setdefault(
+            'ml_pipeline_engine/types.py::CaseResult',
+            lambda st, ref: PyV.case(lift(st.getf(ref, 'label'), st), lift(st.getf(ref, 'node_id'), st)))
+        state.value_classes.setdefault(
+            'ml_pipeline_engine/types.py::Recurrent',
+            lambda st, ref: PyV.rec(lift(st.getf(ref, 'data'), st)))
+
+    # ==================================================================================
+    # yields (atomic segment boundaries)
+    # ==================================================================================
+    yield_hook = None
+    entry_snapshot = None
+    entry_args = None
+
+    def do_yield(self, label):
+        st = self.st
+        held = list(st.ghost.get('held', []))
+        st.emit('yield', label=label, held=held, snap=st.snapshot())
+        if self.yield_hook is not None:
+            self.yield_hook(self, label)
+        if self.opt.get('inject_cancel'):
+            if st.choose([True, True], f'cancel@{label}') == 1:
+                st.emit('cancelled', at=label)
+                self.raise_builtin('CancelledError', f'cancelled at {label}')
 
     # ==================================================================================
     # exceptions
@@ -453,6 +478,9 @@ class Interp:
         """look ``name`` up in the class hierarchy; returns (value,) or None"""
         for c in self.repo.mro(ci):
             if isinstance(c, ClassInfo):
+                prefix = f'_{c.name.lstrip("_")}__'
+                if name.startswith(prefix) and ('__' + name[len(prefix):]) in c.methods:
+                    name = '__' + name[len(prefix):]
                 if name in c.methods:
                     fi = c.methods[name]
                     if fi.is_static:
@@ -1529,7 +1557,12 @@ class Interp:
     # ==================================================================================
     # pure evaluation with merging (for predicates and comprehension bodies)
     # ==================================================================================
-    def eval_merged(self, thunk, kind='val'):
+    def _split_pc(self, delta, v):
+        guards = [f for f in delta if f.get_id() not in self.st.assumed_ids]
+        assumes = [f for f in delta if f.get_id() in self.st.assumed_ids]
+        return guards, assumes, v
+
+    def eval_merged(self, thunk, kind='val', assuming=None):
         """Run ``thunk`` (which may fork) from the current state and merge all outcomes into one
         term.  The sub-computation must be pure: no heap writes, no effects, no exceptions."""
         st = self.st
@@ -1541,22 +1574,31 @@ class Interp:
         work = [[]]
         outcomes = []
         base_pc = list(st.pc)
+        if assuming is not None and not isinstance(assuming, bool):
+            base_pc = base_pc + [assuming]
         # the solver must be restored between sub-paths: use push/pop
         while work:
             script = work.pop()
             st.solver.push()
+            if assuming is not None and not isinstance(assuming, bool):
+                st.solver.add(assuming)
             st.script, st.pos, st.taken, st.pending = script, 0, [], []
             st.pc = list(base_pc)
             st.heap = {k: dict(v) for k, v in heap_before.items()}
             st.next_id = next_id
             try:
                 v = thunk()
-                if len(st.effects) != n_eff and any(x.kind not in ('read',) for x in st.effects[n_eff:]):
-                    kinds = [x.kind for x in st.effects[n_eff:]]
-                    raise Unsupported(f'impure sub-computation inside a merged evaluation: {kinds}')
-                outcomes.append((st.pc[len(base_pc):], v))
+                bad = [x.kind for x in st.effects[n_eff:] if x.kind in IMPURE_EFFECTS]
+                for oid, fields in heap_before.items():
+                    cur = st.heap.get(oid, {})
+                    for fname, fval in fields.items():
+                        if cur.get(fname) is not fval:
+                            bad.append(f'write:{oid}.{fname}')
+                if bad:
+                    raise Unsupported(f'impure sub-computation inside a merged evaluation: {bad}')
+                outcomes.append(self._split_pc(st.pc[len(base_pc):], v))
             except PyRaise as pr:
-                outcomes.append((st.pc[len(base_pc):], pr))
+                outcomes.append(self._split_pc(st.pc[len(base_pc):], pr))
             except Infeasible:
                 pass
             finally:
@@ -1568,6 +1610,18 @@ class Interp:
         st.next_id = next_id
         if not outcomes:
             raise Infeasible()
+        # assumptions made inside the sub-computation (callee postconditions, model axioms) define its
+        # fresh symbols: they stay valid, guarded by the branch decisions under which they were made
+        self.last_merged_assumptions = []
+        for guards, assumes, _v in outcomes:
+            if assumes:
+                pre_g = ([assuming] if assuming is not None and not isinstance(assuming, bool) else []) + guards
+                f = z3.And(*assumes) if len(assumes) > 1 else assumes[0]
+                if pre_g:
+                    f = z3.Implies(z3.And(*pre_g) if len(pre_g) > 1 else pre_g[0], f)
+                self.last_merged_assumptions.append(f)
+                st.assume(f)
+        outcomes = [(g, v) for g, _a, v in outcomes]
         # merge
         raising = [(pc, v) for pc, v in outcomes if isinstance(v, PyRaise)]
         normal = [(pc, v) for pc, v in outcomes if not isinstance(v, PyRaise)]
@@ -1794,6 +1848,8 @@ class Interp:
 
 
 STR_OF = z3.Function('str_of', PyV, StrS)
+IMPURE_EFFECTS = {'spawn', 'notify', 'event_set', 'yield', 'cancel', 'sleep', 'wait', 'event_wait', 'user_call',
+                  'add_node', 'add_edge'}
 
 
 class StarSeq:
